@@ -180,9 +180,11 @@ def gen_stmt(g, env, indent, depth):
         if k == 0:
             a = g.pick(ints)
             g.emit(indent, "%s = ident(%s)" % (v, a), v, multi=a in g.multi)
-        elif k == 1 and objs0:
+        elif k == 1 and objs0 and (g.callee_revisit or "loop" not in g.labels):
+            # (a helper that reads or writes a field of its argument is not called in or after a loop while the
+            # summary-revisit finding is open: the summary of the first visit would be applied to the changed object)
             g.emit(indent, "%s = getf0(%s)" % (v, g.pick(objs0)), v, multi=True)
-        elif k == 2 and objs0 and g.callee_field_write:
+        elif k == 2 and objs0 and g.callee_field_write and (g.callee_revisit or "loop" not in g.labels):
             o = g.pick(objs0)
             g.labels.add("callee_field_write")
             g.emit(indent, "%s = setf1(%s, %s)" % (v, o, g.pick(ints)), v, multi=True)
